@@ -95,11 +95,11 @@ func (d storeDiag) Info(msg string, ctx ...keyvalue.T) {}
 type alertDiag struct{ d *Diag }
 
 func (a alertDiag) WithHandlerContext(ctx ...keyvalue.T) alertservice.HandlerDiagnostic { return a }
-func (a alertDiag) MigratingHandlerSpecs()                                               {}
-func (a alertDiag) FoundHandlerRows(length int)                                          {}
-func (a alertDiag) FoundNewHandler(key string)                                           {}
-func (a alertDiag) CreatingNewHandlers(length int)                                       {}
-func (a alertDiag) MigratingOldHandlerSpec(id string)                                    {}
+func (a alertDiag) MigratingHandlerSpecs()                                              {}
+func (a alertDiag) FoundHandlerRows(length int)                                         {}
+func (a alertDiag) FoundNewHandler(key string)                                          {}
+func (a alertDiag) CreatingNewHandlers(length int)                                      {}
+func (a alertDiag) MigratingOldHandlerSpec(id string)                                   {}
 func (a alertDiag) Error(msg string, err error, ctx ...keyvalue.T) {
 	a.d.mu.Lock()
 	a.d.Errors = append(a.d.Errors, ErrRec{Task: "alert-service", Msg: msg, Err: errStr(err)})
